@@ -7,6 +7,7 @@ import (
 	ctrlertypes "github.com/rigochain/rigo-go/ctrlers/types"
 	"github.com/rigochain/rigo-go/ledger"
 	"github.com/rigochain/rigo-go/libs"
+	"github.com/rigochain/rigo-go/libs/vhook"
 	"github.com/rigochain/rigo-go/types"
 	"github.com/rigochain/rigo-go/types/bytes"
 	"github.com/rigochain/rigo-go/types/crypto"
@@ -791,20 +792,24 @@ func (ctrler *StakeCtrler) Commit() ([]byte, int64, xerrors.XError) {
 	if xerr != nil {
 		return nil, -1, xerr
 	}
+	vhook.At("commit/stake/delegatees")
 	h1, v1, xerr := ctrler.frozenLedger.Commit()
 	if xerr != nil {
 		return nil, -1, xerr
 	}
+	vhook.At("commit/stake/frozen")
 	h2, v2, xerr := ctrler.rewardLedger.Commit()
 	if xerr != nil {
 		return nil, -1, xerr
 	}
+	vhook.At("commit/stake/rewards")
 	if v0 != v1 || v1 != v2 {
 		return nil, -1, xerrors.ErrCommit.Wrapf("error: StakeCtrler.Commit() has wrong version number - v0:%v, v1:%v, v2:%v", v0, v1, v2)
 	}
 
 	if v0%ctrler.rwdLedgUpInterval == 0 {
 		_ = ctrler.rwdHashDB.PutLastRewardHash(h2)
+		vhook.At("commit/stake/rwdhash")
 		ctrler.lastRwdHash = h2
 	}
 
